@@ -311,6 +311,8 @@ def check_case(case: dict[str, Any], ctx: Any = None) -> list[str]:
         if isinstance(verdicts[False], str) and verdicts[False].startswith("<spec rejected"):
             if ctx is not None:
                 ctx.count("constraint_rejected_by_reader")
+                why = verdicts[False].split(":", 2)[-1].strip()[:60]
+                ctx.count("reader_rejected:" + ("no such child (static path check)" if "has no child" in verdicts[False] or "not found" in verdicts[False] else why))
             continue
         for lazy, got in verdicts.items():
             if got != want:
